@@ -242,7 +242,8 @@ PROPS["C12"] = {
 
 PROPS["C03"] = {
     "streams": [{"name": "inst"}, {"name": "tlv"}, {"name": "master"}, {"name": "timed"},
-                {"name": "filt", "chunk_prefixes": ["FLT knew", "FLT bnew"]}],
+                {"name": "filt", "chunk_prefixes": ["FLT knew", "FLT bnew"]},
+                {"name": "loop", "chunk_prefixes": ["FLT knew"]}],
     "model_is_spec": ["inst", "tlv", "master", "timed"],
     "profiles_thorough": ["debug", "release"],
     "model_profiles": ["debug"],
@@ -252,7 +253,10 @@ PROPS["C03"] = {
             "configurations, BMCA before any port exists, run-time setting changes) is a call that must return; compared with the model: "
             "returned normally / panicked, after every op (debug build: overflow checks and debug assertions on). Thorough tier: the same "
             "streams on a release build too (no panic allowed there either; the value-level properties judge wrapped results). "
-            "Independent oracle: any panic, named by its site (source file and message) and the kind of call. distinct = distinct ops",
+            "Independent oracle: any panic, named by its site (source file and message) and the kind of call. filt / loop: the real Kalman and "
+            "basic filters under random call sequences and under the closed-loop simulation of C02 (debug build too: one scenario in four "
+            "keeps a Delay_Req in flight across the Sync arrivals of the first 20 s, so that a clock step falls between a request's transmit "
+            "timestamp and its response). distinct = distinct ops",
     "explanation": "Lean: bounded-state invariant, totality of every port-level handler on bounded state and inputs, BMCA keeps the bound, failure kinds of a BMCA run",
     "assumptions": INST_ASSUME + ["host timestamps below 2^63 ns, frames of at most 65535 octets, |delay asymmetry| < 2^78 ns (BA), the host's filter returns mean delays it was given (recording filter): the hypotheses of the totality theorems",
                    "the Kalman / basic filters, the clock overlay and the daemon are outside this model (C13, C18, C20)"],
